@@ -170,6 +170,12 @@ def pymod(a, b):
     a, b = to_int(a), to_int(b)
     if isinstance(a, int) and isinstance(b, int):
         return a % b
+    if CUR is not None and getattr(CUR, "arith_hints", False) and is_sym(b) and _is_pow2_term(b):
+        # proof hint (instance of a proved lemma): a quotient by a modulus m with -m <= a < m is 0 or -1
+        from . import lemmas
+
+        CUR.solver.add(lemmas.instance("div-range", [to_z3(a), to_z3(b)]))
+        CUR.axioms_used.add("lemma:div-range")
     return to_z3(a) - to_z3(b) * pydiv(a, b)
 
 
@@ -360,6 +366,15 @@ def shr(a, n):
 
 def wrap_unsigned(x, w):
     """x mod 2**w"""
+    if CUR is not None and getattr(CUR, "arith_hints", False) and (is_sym(x) or is_sym(w)):
+        # path-sensitive simplification: where the path condition implies -2**w <= x < 2**w the
+        # modulo is x or x + 2**w -- keeps the term linear (no quotient by a symbolic modulus)
+        m = pow2(w)
+        xz = to_z3(to_int(x))
+        if CUR.entails(z3.And(xz >= 0, xz < m)):
+            return xz
+        if CUR.entails(z3.And(xz >= -m, xz < m)):
+            return z3.If(xz < 0, xz + m, xz)
     return pymod(x, pow2(w))
 
 
